@@ -76,7 +76,7 @@ class Pools(object):
         if self.huge and r.random() < self.huge:
             return rbytes(r, r.choice([2047, 2048, 2049, 4100, 65535, 65536, 70000, 140000]))
         if self.big or r.random() < 0.25:
-            return self.dname(r) if r.random() < 0.8 else rbytes(r, r.choice([0, 1, 2, 23, 24, 63, 255, 256, 300]))
+            return self.dname(r) if r.random() < 0.7 else rbytes(r, r.choice([0, 1, 2, 23, 24, 63, 255, 256, 300]) if r.random() < 0.6 else r.randrange(0, 140))
         return r.choice(self.names)
 
     def rdata(self):
@@ -84,7 +84,7 @@ class Pools(object):
         if self.huge and r.random() < self.huge:
             return rbytes(r, r.choice([2040, 2048, 6200, 65530, 65535, 65537, 100000]))
         if self.big or r.random() < 0.3:
-            return rbytes(r, r.choice([0, 1, 2, 4, 16, 23, 24, 100, 255, 256, 600]))
+            return rbytes(r, r.choice([0, 1, 2, 4, 16, 23, 24, 100, 255, 256, 600]) if r.random() < 0.7 else r.randrange(0, 140))
         return r.choice(self.rdatas)
 
     def ct(self):
@@ -95,7 +95,9 @@ class Pools(object):
 
 
 def utf8(r, maxlen=12):
-    alphabet = ['a', 'b', 'Z', '0', ' ', '-', '\u00e9', '\u017e', '\u65e5', '\u672c', '\U0001d11e', '\u00a0', '\u00df', '\x00', '\n', '\x7f', '"']
+    alphabet = ['a', 'b', 'Z', '0', ' ', '-', '\u00e9', '\u017e', '\u65e5', '\u672c', '\U0001d11e', '\u00a0', '\u00df', '\x00', '\n', '\x7f', '"',
+                # first and last code point of every UTF-8 sequence length, the surrogate gap's neighbours, the last code point
+                '\x01', '\u0080', '\u07ff', '\u0800', '\ud7ff', '\ue000', '\ufffd', '\uffff', '\U00010000', '\U0010ffff']
     return ''.join(r.choice(alphabet) for _ in range(r.randrange(0, maxlen))).encode('utf-8')
 
 
@@ -361,6 +363,9 @@ def gen_history(r, cid, nops=None, comp=None, kind=None, rotations=True, direct=
         elif k == 'dblock':
             bi = r.randrange(0, usable)
             op = {'op': 'dblock', 'bp': bi, 'items': gen_direct_items(r, P, m.bps[bi], base_ts, empties)}
+            how = r.choice(['direct', 'direct', 'movector', 'moveassign', 'copyctor', 'copyassign'])
+            if how != 'direct':
+                op['how'] = how
         elif k == 'rotate_bad':
             # a rotation that fails to open its destination, then the application rotates to a good one
             op = {'op': 'rotate_bad', 'id': 'v%d' % nout, 'export': r.random() < 0.5}
